@@ -1,6 +1,6 @@
 """C09 — set union and intersection mean union and intersection of the versions matched."""
 import lib
-from lib import sx, parse_sx
+from lib import sx
 from gen import ctable, reqtext, cdump
 
 PROOF_FILE = "C09"
@@ -10,8 +10,11 @@ RULE = ("pairs of requirement strings (A, B) per system (Default, NPM, Cargo, Go
         "built to share a lower or an upper end point with every open/closed combination (nested, overlapping, touching, also as "
         "||-alternatives) and the shared points are always probed; ~20 probe versions "
         "per pair = every bound of A and B, its predecessor/successor in each component, its prerelease neighbours, random "
-        "versions. Go computes A, B, A∪B, A∩B, B∪A, B∩A (fresh operands each time), Empty flags, and membership of every probe "
-        "under MatchVersion and under prerelease-inclusive matching; the extracted model computes the same from the same "
+        "versions; a second pass adds every bound of the spans Go holds for A, B and the four results (∞ written as 2^63-2 and 2^63-1) with neighbours; "
+        "30% of the Go/Cargo operands (8% elsewhere) are set texts {[a:b),(c:d],e} read by ParseSetConstraint (1-4 ordered spans); the ||-alternatives of A and of B are also given in another order. "
+        "Go computes A, B, A∪B, A∩B, B∪A, B∩A, A∪A, A∩A (fresh operands each time), Empty flags, membership of every probe "
+        "under MatchVersion and under prerelease-inclusive matching (hook), the public route ParseSetConstraint(result.String()).MatchVersionPrerelease on the four results "
+        "(must equal the hook), and re-observes the argument after each call (must be unchanged); the extracted model computes the same from the same "
         "parse tables. A case is non-trivial when both strings parse and at least one probe is matched by A or B")
 TRUSTED = [
     "Coq 8.16.1 kernel; vm_compute for the refuted witnesses",
@@ -39,6 +42,18 @@ MANIFEST = dict(
     technique="Rocq proof over an executable model + differential correspondence + membership-law oracle on Go outputs",
     design="8 C09")
 
+_PARSED = {}
+_DUMPS = {}
+
+
+def parse_sx(line):
+    """every output line is looked at by several passes: parse it once"""
+    r = _PARSED.get(line)
+    if r is None:
+        r = _PARSED[line] = lib.parse_sx(line)
+    return r
+
+
 SYSTEMS = [0, 4, 1, 2]
 NAMES = reqtext and ["Default", "Cargo", "Go", "Maven", "NPM", "NuGet", "PyPI", "RubyGems", "Composer"]
 
@@ -65,13 +80,13 @@ def project(line):
     if not line.startswith('("ok"'):
         return line
     r = parse_sx(line)
-    flags = [(x[0], x[1] if x[0] == b"ok" else None) for x in r[1:7]]
-    return repr((flags, r[7]))
+    flags = [(x[0], x[1] if x[0] == b"ok" else None) for x in list(r[1:7]) + list(r[9:11])]
+    return repr((flags, r[7], r[8]))
 
 
 def gen_cases(ctx):
     rng = ctx.rng
-    n = ctx.scale(9000, 450000)
+    n = ctx.scale(7500, 400000)
     cases = []
     for k in range(n):
         sysi = SYSTEMS[k % 4]
@@ -82,16 +97,20 @@ def gen_cases(ctx):
             a, b, pts = reqtext.shared_endpoint_pair(rng, sysi)
             probes = pts + [x for x in reqtext.probes(rng, sysi, [a, b], n_random=2, cap=16) if x not in pts]
         else:
-            a = reqtext.requirement(rng, sysi, noise)
-            b = reqtext.requirement(rng, sysi, noise)
+            # Go and Cargo have no ||: their operands of several spans come from set texts
+            p_set = 0.3 if sysi in (1, 2) else 0.08
+            a = reqtext.set_text(rng, sysi) if rng.random() < p_set else reqtext.requirement(rng, sysi, noise)
+            b = reqtext.set_text(rng, sysi) if rng.random() < p_set else reqtext.requirement(rng, sysi, noise)
             probes = reqtext.probes(rng, sysi, [a, b])
         c = mk(sysi, a, b, probes)
         c["perm_of"] = None
         cases.append(c)
         if sysi in (0, 4) and rng.random() < 0.35:
-            a2 = shuffle_alts(rng, a)
-            if a2 is not None and a2 != a:
-                c2 = mk(sysi, a2, b, probes)
+            # the same operands with the ||-alternatives of A, of B or of both in another order
+            a2 = (shuffle_alts(rng, a) if rng.random() < 0.7 else None) or a
+            b2 = (shuffle_alts(rng, b) if rng.random() < 0.6 else None) or b
+            if (a2, b2) != (a, b):
+                c2 = mk(sysi, a2, b2, probes)
                 c2["perm_of"] = len(cases) - 1
                 cases.append(c2)
     # regression corpus: the witnesses of the known findings
@@ -124,6 +143,28 @@ class Hit:
         self.idx, self.what, self.probe, self.observed, self.required, self.slot = idx, what, probe, observed, required, slot
 
 
+def add_span_probes(ctx, cases):
+    """second probe pass: Go is asked for the sets first (no probes); the bounds of the spans of
+    A, B and of the four results, as Go holds them, become probes (never cut), with neighbours"""
+    pre = ctx.impl("setop", ["(" + " ".join(c["head"][:3]) + " () ())" for c in cases])
+    ctx.evaluations -= len(cases)
+    out = []
+    for c, line in zip(cases, pre):
+        if line.startswith('("ok"'):
+            r = lib.parse_sx(line)
+            spans = []
+            for x in r[1:7]:
+                spans += cdump.SetInfo(x).spans
+            extra = reqtext.span_probes(ctx.rng, c["sys"], spans, have=c["probes"])
+            ctx.count("span-probes:%d" % min(len(extra) // 4 * 4, 24))
+            if extra:
+                c2 = mk(c["sys"], c["a"], c["b"], c["probes"] + extra)
+                c2["perm_of"] = c.get("perm_of")
+                c = c2
+        out.append(c)
+    return out
+
+
 def oracle(ctx, cases, impl_lines):
     """evaluate the laws of the property on the Go outputs; returns the list of hits"""
     hits = []
@@ -136,9 +177,21 @@ def oracle(ctx, cases, impl_lines):
         r = parse_sx(line)
         A, B, U, I, U2, I2 = [cdump.SetInfo(x) for x in r[1:7]]
         rows = r[7]
+        AU, AI = cdump.SetInfo(r[9]), cdump.SetInfo(r[10])
         parsed[idx] = (A, B, U, I, U2, I2, rows)
+        for nm, okbit in zip(("A∪B", "A∩B", "B∪A", "B∩A"), r[8]):
+            if okbit != 1:
+                # observe_at is a function of the set: computing with a set as ARGUMENT must not change it
+                hits.append(Hit(idx, "the argument of %s prints or matches differently after the call" % nm, None, okbit, 1, "arg"))
+        for nm, X, slot in (("A∪A", AU, "au"), ("A∩A", AI, "ai")):
+            if not X.ok:
+                ctx.count("op-error:%s" % nm)
+            elif X.empty != A.empty:
+                hits.append(Hit(idx, "Empty(%s) differs from Empty(A)" % nm, None, X.empty, A.empty, slot))
         ctx.count("pair:%s:ok" % name)
         ctx.count("spans:%d" % min(len(A.spans) + len(B.spans), 6))
+        if len(A.spans) > 1 or len(B.spans) > 1:
+            ctx.count("multi-span operand:%s" % name)
         for nm, X in (("union", U), ("intersection", I), ("union'", U2), ("intersection'", I2)):
             if not X.ok:
                 ctx.count("op-error:%s" % nm)
@@ -151,7 +204,7 @@ def oracle(ctx, cases, impl_lines):
             if row == [b"verr"]:
                 ctx.count("probe:rejected")
                 continue
-            aE, aI, bE, bI, uE, uI, iE, iI, u2E, u2I, i2E, i2I = row
+            aE, aI, bE, bI, uE, uI, iE, iI, u2E, u2I, i2E, i2I, pU, pI, pU2, pI2, auE, auI, aiE, aiI = row
             ctx.evaluations += 1
             rel = is_release(probe)
             ctx.count("probe:release" if rel else "probe:prerelease")
@@ -164,10 +217,23 @@ def oracle(ctx, cases, impl_lines):
             if I.ok and iI != (aI & bI):
                 hits.append(Hit(idx, "interval matching: v in A∩B differs from (v in A and v in B)", probe, iI, aI & bI, "i"))
             if U.ok and uI != (aI | bI):
-                ctx.count("info:union-under-interval-matching-differs")   # not claimed by the property text
+                # DESIGN 8 states the union law for interval matching too (C09_union_partial proves it inside its region)
+                hits.append(Hit(idx, "interval matching: v in A∪B differs from (v in A or v in B)", probe, uI, aI | bI, "u"))
             for nm, X, e, i_, slot in (("A", A, aE, aI, "a"), ("B", B, bE, bI, "b"), ("A∪B", U, uE, uI, "u"), ("A∩B", I, iE, iI, "i")):
                 if X.ok and X.empty and (e == 1 or i_ == 1):
                     hits.append(Hit(idx, "%s is reported Empty but matches v" % nm, probe, 1, 0, slot))
+            # the public route of observe_at on the RESULTS: print, ParseSetConstraint, MatchVersionPrerelease
+            if not any(ch in probe for ch in b"xX*"):
+                for nm, X, hook, pub, slot in (("A∪B", U, uI, pU, "u"), ("A∩B", I, iI, pI, "i"), ("B∪A", U2, u2I, pU2, "u"), ("B∩A", I2, i2I, pI2, "i")):
+                    if X.ok and pub != hook:
+                        ctx.count("public-route:" + ("printed result rejected" if pub == -2 else "differs"))
+                        hits.append(Hit(idx, "%s: ParseSetConstraint(result.String()).MatchVersionPrerelease differs from the result's own interval matching (printed %r)"
+                                        % (nm, X.string), probe, pub, hook, "pub:" + slot))
+            # receiver = argument
+            if AU.ok and (auE, auI) != (aE, aI):
+                hits.append(Hit(idx, "A∪A matches differently from A", probe, (auE, auI), (aE, aI), "au"))
+            if AI.ok and (aiE, aiI) != (aE, aI):
+                hits.append(Hit(idx, "A∩A matches differently from A", probe, (aiE, aiI), (aE, aI), "ai"))
             if U.ok and U2.ok and (uE != u2E or uI != u2I):
                 hits.append(Hit(idx, "A∪B and B∪A match different versions", probe, (uE, uI), (u2E, u2I), "u"))
             if I.ok and I2.ok and (iE != i2E or iI != i2I):
@@ -185,14 +251,16 @@ def oracle(ctx, cases, impl_lines):
             continue
         ctx.count("perm-pairs")
         rows1, rows2 = parsed[j][6], parsed[idx][6]
-        for probe, r1, r2 in zip(c["probes"], rows1, rows2):
-            if r1 == [b"verr"] or r2 == [b"verr"]:
+        by_probe = dict(zip(cases[j]["probes"], rows1))
+        for probe, r2 in zip(c["probes"], rows2):
+            r1 = by_probe.get(probe)
+            if r1 is None or r1 == [b"verr"] or r2 == [b"verr"]:
                 continue
             if (r1[4], r1[5]) != (r2[4], r2[5]):
-                hits.append(Hit(idx, "union depends on the order of the ||-alternatives of A (%r vs %r)" % (cases[j]["a"], c["a"]),
+                hits.append(Hit(idx, "union depends on the order of the ||-alternatives of the operands (%r, %r vs %r, %r)" % (cases[j]["a"], cases[j]["b"], c["a"], c["b"]),
                                 probe, (r2[4], r2[5]), (r1[4], r1[5]), "u"))
             if (r1[6], r1[7]) != (r2[6], r2[7]):
-                hits.append(Hit(idx, "intersection depends on the order of the ||-alternatives of A (%r vs %r)" % (cases[j]["a"], c["a"]),
+                hits.append(Hit(idx, "intersection depends on the order of the ||-alternatives of the operands (%r, %r vs %r, %r)" % (cases[j]["a"], cases[j]["b"], c["a"], c["b"]),
                                 probe, (r2[6], r2[7]), (r1[6], r1[7]), "i"))
     return hits, parsed
 
@@ -214,8 +282,9 @@ def classify(ctx, tables, cases, impl_lines, model_lines, hits, parsed):
     """a hit is an instance of an open known finding when the model gives the same answer as Go on
     that case and the model's trace of the operation shows the recorded defect path"""
     open_ids = set(k["id"] for k in lib.load_known("C09") if k.get("status") == "open")
-    same = [project(a) == project(b) for a, b in zip(impl_lines, model_lines)]
-    need = sorted(set(h.idx for h in hits if same[h.idx]))
+    hit_idx = set(h.idx for h in hits)
+    same = [i not in hit_idx or a == b or project(a) == project(b) for i, (a, b) in enumerate(zip(impl_lines, model_lines))]
+    need = sorted(i for i, p in enumerate(parsed) if p is not None)     # every accepted pair: the regions are counted
     # a permuted case is explained by the traces of both orders
     extra = set()
     for i in need:
@@ -231,19 +300,44 @@ def classify(ctx, tables, cases, impl_lines, model_lines, hits, parsed):
             if line is not None and line.startswith('("ok"'):
                 r = parse_sx(line)
                 ev = {"u": set(e[0].decode() for e in r[1]) | set(e[0].decode() for e in r[3]),
-                      "i": set(e[0].decode() for e in r[2]) | set(e[0].decode() for e in r[4])}
+                      "i": set(e[0].decode() for e in r[2]) | set(e[0].decode() for e in r[4]),
+                      "au": set(e[0].decode() for e in r[7]), "ai": set(e[0].decode() for e in r[8]),
+                      "region": {"u": bool(r[5]), "i": bool(r[6])}}
                 diag[i] = ev
+                name = NAMES[cases[i]["sys"]]
+                ctx.count("region:%s:pairs" % name)
+                if r[5]:
+                    ctx.count("region:%s:inside C09_union_partial" % name)
+                if r[6]:
+                    ctx.count("region:%s:inside C09_inter_partial" % name)
     for h in hits:
         c = cases[h.idx]
         inp = {"system": NAMES[c["sys"]], "A": c["a"], "B": c["b"], "version": h.probe}
         if not same[h.idx]:
             ctx.violation(h.what, inp, h.observed, h.required)
             continue
+        # a hit inside the region of a _partial theorem contradicts the theorem: the model (about
+        # which the theorem speaks) and the implementation cannot both be what we think
+        reg = diag.get(h.idx, {}).get("region", {})
+        claimed = h.probe is not None and (is_release(h.probe) or "interval matching" in h.what) and "order of the" not in h.what and "Empty" not in h.what
+        if claimed and h.slot in ("u", "i") and reg.get(h.slot):
+            ctx.divergence("theorem-region", inp, "oracle hit inside the proved region of C09_%s_partial: %s" % ("union" if h.slot == "u" else "inter", h.what), "no hit")
+            continue
+        if h.slot.startswith("pub:"):
+            # the only recorded reason for the public route to fail: the printed result is rejected
+            # because a lower bound or single version carries ∞ (F-C11-2, here F-C09-6)
+            X = parsed[h.idx][2 + ("A∪B", "A∩B", "B∪A", "B∩A").index(h.what[:3])]
+            inf_low = any(sp_.rank >= 1 and sp_.min is not None and cdump.INF in sp_.min.nums for sp_ in X.spans)
+            if h.observed == -2 and inf_low and "F-C09-6" in open_ids:
+                ctx.known_hits["F-C09-6"] = ctx.known_hits.get("F-C09-6", 0) + 1
+            else:
+                ctx.violation(h.what, inp, h.observed, h.required)
+            continue
         ev = set()
         for i in (h.idx, c.get("perm_of")):
             if i is not None and i in diag:
                 d = diag[i]
-                ev |= d["u"] | d["i"] if h.slot in ("a", "b") else d[h.slot]
+                ev |= (d["u"] | d["i"]) if h.slot in ("a", "b") else d.get(h.slot.replace("pub:", ""), set())
         cls = None
         for tag in ("drop", "adj", "openunit", "premerge"):
             if tag in ev:
@@ -280,12 +374,19 @@ def model_on_go_sets(ctx, tables, cases, impl_lines, kind):
         if not line.startswith('("ok"'):
             continue
         r = parse_sx(line)
-        da, db = r[1][3], r[2][3]
-        head = [str(c["sys"]), sx(da), sx(db)] if kind == "setop_d" else [sx(da), sx(db)]
+        dumps = _DUMPS.get(line)
+        if dumps is None:
+            dumps = _DUMPS[line] = (sx(r[1][3]), sx(r[2][3]))
+        head = [str(c["sys"]), dumps[0], dumps[1]] if kind == "setop_d" else [dumps[0], dumps[1]]
         if kind == "setop_d":
             head.append(sx(c["probes"]))
+        keys = set((0, p) for p in c["probes"])
+        if kind == "setop_d":
+            for x in r[3:7]:            # the printed results are read back by the public route
+                if x[0] == b"ok":
+                    keys |= ctable.set_string_keys(bytes(x[2]))
         idx.append(i)
-        mcases.append({"sys": c["sys"], "head": head, "keys": set((0, p) for p in c["probes"])})
+        mcases.append({"sys": c["sys"], "head": head, "keys": keys})
     if kind == "setdiag_d":
         outs = ctx.model(kind, ["(" + " ".join(m["head"]) + ")" for m in mcases])
     else:
@@ -306,7 +407,7 @@ def run(ctx):
         toks.append(sx([sysi, reqtext.requirement(rng, sysi if sysi != 8 else 0, 0.5)]))
     ctx.correspond("ctok", toks)
 
-    cases = gen_cases(ctx)
+    cases = add_span_probes(ctx, gen_cases(ctx))
     impl_lines = ctx.impl("setop", ctable.impl_args(cases))
     model_lines = model_on_go_sets(ctx, tables, cases, impl_lines, "setop_d")
     ctx.count("corr:setop", len(cases))
@@ -331,7 +432,7 @@ def run(ctx):
 
 
 def oracle_only(ctx):
-    cases = gen_cases(ctx)
+    cases = add_span_probes(ctx, gen_cases(ctx))
     impl_lines = ctx.impl("setop", ctable.impl_args(cases))
     for h in oracle(ctx, cases, impl_lines)[0]:
         c = cases[h.idx]
